@@ -289,11 +289,11 @@ def run(tier, seed):
     ctx.functions = ['loki.backend.fgen.FCodeMapper (via fgen)', 'loki.backend.cgen.CCodeMapper (via cgen)',
                      'loki.expression.mappers.LokiStringifyMapper', 'loki.ir.expr_visitors.SubstituteExpressions',
                      'loki.expression.symbolic.simplify']
-    ctx.bounds = {'int_vars': f'|v|<={BOUND}', 'real_vars': f'|v|<={BOUND} (exact rationals)', 'int_exponent': '0..3',
+    ctx.bounds = {'int_vars': f'|v|<={BOUND}', 'real_vars': f'|v|<={BOUND} (exact rationals)', 'int_exponent': '-3..3',
                   'tree_depth': 3 if tier == 'quick' else 4, 'outside': 'overflow, FP rounding (UF pass counted separately), '
                   'character/array-valued expressions'}
     ctx.assumptions = ['reference parsers vlib/refparse.py implement F2008 R7xx / C11 6.5 precedence',
-                       'divisors non-zero, integer exponents in 0..3', 'z3 5.1 is sound',
+                       'divisors non-zero, integer exponents in -3..3 (negative: base non-zero)', 'z3 5.1 is sound',
                        'C: pow() returns double (C typing modelled)']
     FAMILY = build_family(tier)
     idx = list(range(len(FAMILY)))
